@@ -80,6 +80,11 @@ def wrap_typestate(ctx, rep, rule):
                   "job body `%s` awaited in slot state %s" % (src(e.node), e.data['slot']),
                   "a job body runs without holding a window slot: more than jobs_window bodies can run at once",
                   trace(e.st))
+    for e in bodies:
+        rep.check(not e.st.a('body_done') and not any(c.kind in ('for', 'while') for c in e.loops), rule,
+                  "%s body awaited once per task" % e.where, fn,
+                  "job body `%s` can be awaited again in the same task (loop or second await)" % src(e.node),
+                  "a job's body is entered more than once in one run", trace(e.st))
     for e in an.events('STORE'):
         if e.data['attr'] == r.running_attr and e.data['val'] == T.TRUE:
             rep.check(e.data['slot'] == 'Held', rule, "%s running flag" % e.where, fn,
